@@ -372,22 +372,40 @@ def run(ctx):
     from .. import roles as _roles_n
     _Rn = _roles_n.get(model)
     for a, h in sorted(name_attrs.items()):
-        tested = set()
+        odd = None
         for p in handler_paths(model, h):
-            for (tt, b, site) in p.pc:
-                for x in walk(tt):
-                    if isinstance(x, tuple) and x and x[0] == "isnone":
-                        fa = _flag_attr(x)
-                        if fa:
-                            tested.add(fa)
-        odd = sorted(tested - set(name_attrs))
+            truth = pc_truth(p.pc)
+            present = None
+            compared = False
+            a_none = None
+            for tt, vv in truth.items():
+                if tt[0] == "cmp" and tt[1] == "in" and is_const(tt[2]) and \
+                        isinstance(tt[2][1], str) and is_client_value(tt[3]):
+                    present = vv
+                if tt[0] == "cmp" and tt[1] in ("==", "!="):
+                    for x, y in ((tt[2], tt[3]), (tt[3], tt[2])):
+                        if _flag_attr(x) == a and is_client_value(y):
+                            compared = True
+                if tt[0] == "isnone" and _flag_attr(tt[1]) == a:
+                    a_none = vv
+            if present is None:
+                continue
+            evs = [e for e, _ in all_events(p)]
+            refused = any(e["k"] == "raise" and e["cls"] == "Error" for e in evs) and \
+                not any(e["k"] == "sql" for e in evs)
+            if present is True and not compared and not refused and a_none is not True:
+                odd = ("a %s naming a %s is carried out without being compared with %s "
+                       "although %s is not known to be unset" % (
+                           h, "mailbox" if "mailbox" in a else "nameplate", a, a))
+            if present is False and refused and a_none is not True:
+                odd = ("a bare %s is refused although %s (what the connection %s) is not "
+                       "known to be unset" % (h, a, "opened" if "mailbox" in a else "claimed"))
         ctx.ob("R17.names", "%s: the None tests that guard the %s name are on %s" % (
-            h, "mailbox" if "mailbox" in a else "nameplate", a), not odd, "",
-            "" if not odd else "%s decides `was anything %s?` by %s is None, but compares "
-            "the named field with %s: once the two differ (the mailbox deleted under the "
-            "connection clears the handle, not the name) a command naming something else is "
-            "carried out, or a bare one is refused" % (
-                h, "opened" if "mailbox" in a else "claimed", odd[0], a))
+            h, "mailbox" if "mailbox" in a else "nameplate", a), odd is None, "",
+            "" if odd is None else odd + ": `was anything %s?` is decided by something other "
+            "than the remembered name (the handle of the mailbox object is cleared when the "
+            "mailbox is deleted under the connection, the name is not)" % (
+                "opened" if "mailbox" in a else "claimed"))
         # the id a bare command falls back to
         ops = (_Rn.open_op, _Rn.release_op)
         for p in handler_paths(model, h):
@@ -756,8 +774,18 @@ def _allocate_guard_ok(ctx):
     sub = Ctx(ctx.model, "C04", ctx.tier)
     try:
         c04.run(sub)
-    except AnalysisError:
-        return False
+    except AnalysisError as e:
+        # whether the allocator's candidate is free could not be decided: the
+        # exemption can be neither granted nor refused
+        if any(o.rule in ("R04.guard", "R04.src") and not o.ok for o in sub.obligations):
+            return False
+        g = [o for o in sub.obligations if o.rule in ("R04.guard", "R04.src")]
+        if len(g) >= 3 and {"R04.guard", "R04.src"} <= set(o.rule for o in g):
+            # both rules were evaluated (and hold) before the part of C04 that
+            # has no verdict
+            return True
+        raise AnalysisError("R17.escape: the allocate exemption depends on C04's guard "
+                            "rules, which have no verdict (%s)" % str(e)[:100])
     return all(o.ok for o in sub.obligations if o.rule in ("R04.guard", "R04.src"))
 
 EXPLANATION += ' Batch 6: field presence by `in` / `is None` (R17.present); no unguarded int()/float() in the code the handlers run (R17.convert); the first call on a connection handle is dominated by a test of it.'
